@@ -359,11 +359,16 @@ func (n *WorkflowNode) checkAndAddMappedPath(paths []FieldPath) error {
 		}
 	}
 
+	inputType := n.inputType()
+
 	for _, targetPath := range paths {
 		m, ok := n.mappedFieldPath[""].(map[string]any)
 		if !ok {
 			return fmt.Errorf("entire output has already been mapped for node: %s", n.key)
 		}
+
+		// a promoted field can be named directly or through its embedded field: one spelling per position
+		targetPath = canonicalFieldPath(targetPath, inputType)
 
 		if len(targetPath) == 0 {
 			// mapping to the entire input: conflicts with any other mapped path
@@ -402,6 +407,58 @@ func (n *WorkflowNode) checkAndAddMappedPath(paths []FieldPath) error {
 	}
 
 	return nil
+}
+
+// inputType is the declared input type of the node (nil if it is not known).
+func (n *WorkflowNode) inputType() reflect.Type {
+	if n.key == END {
+		return n.g.outputType()
+	}
+	if node, ok := n.g.nodes[n.key]; ok && node != nil {
+		return node.inputType()
+	}
+	return nil
+}
+
+// canonicalFieldPath spells every promoted field name of path out through the embedded fields it is
+// promoted from, so that two paths denote overlapping positions of a value of type typ iff one of them
+// is a prefix of the other. Path elements that cannot be resolved on the type are kept as they are.
+func canonicalFieldPath(path FieldPath, typ reflect.Type) FieldPath {
+	out := make(FieldPath, 0, len(path))
+	for i, field := range path {
+		for typ != nil && typ.Kind() == reflect.Ptr {
+			typ = typ.Elem()
+		}
+
+		if typ == nil {
+			return append(out, path[i:]...)
+		}
+
+		switch typ.Kind() {
+		case reflect.Struct:
+			f, ok := typ.FieldByName(field)
+			if !ok {
+				return append(out, path[i:]...)
+			}
+			cur := typ
+			for _, idx := range f.Index {
+				if cur.Kind() == reflect.Ptr {
+					cur = cur.Elem()
+				}
+				sf := cur.Field(idx)
+				out = append(out, sf.Name)
+				cur = sf.Type
+			}
+			typ = f.Type
+		case reflect.Map:
+			out = append(out, field)
+			typ = typ.Elem()
+		default:
+			return append(out, path[i:]...)
+		}
+	}
+
+	return out
 }
 
 // validateStaticValue checks at compile time that a static value can be assigned to its field path of the node's input.
